@@ -11,7 +11,7 @@ def run(ctx):
     q = ctx['tier'] == 'quick'
     s = ctx['seed'] + 6
     return run_parts(ctx, [
-        Part('filter_candset', 'corr_matcher', 'run_candset', [s, 120 if q else 2500]),
+        Part('filter_candset', 'corr_matcher', 'run_candset', [s, 200 if q else 3000]),
         Part('filter_pair', 'corr_filters', 'run_pairs', [s, 300 if q else 6000],
              specs={'fp_overlap_exact_spec'}),
         Part('overlap_tables', 'corr_filters', 'run_tables', [s, 100 if q else 2000, ['overlap']],
